@@ -203,10 +203,15 @@ class HistWorld:
             removers[i] = conn.add_message_callback(handlers[i], types_of[i])
             ref[i] = tnames(i)
 
+        stale: dict[int, Any] = {}
+
         def do_unsub(i: int) -> None:
             r = removers.pop(i, None)
+            if r is None:
+                r = stale.get(i)  # an unsubscribe function called a second time: nothing is registered under it any more
             if r is not None:
                 r()
+                stale[i] = r
             ref[i] = set()
 
         def make(i: int) -> Any:
